@@ -171,6 +171,25 @@ func S6(maxPacket, ops, digests, dups, holds int, membership bool) *Scenario {
 	return sc
 }
 
+// S8: stream paths and empty values: the owner re-joins or leaves (its whole
+// state, incl. tombstones, travels over a stream), keys are re-created with an
+// empty value after a delete.
+func S8(maxPacket, ops, digests, dups, holds int) *Scenario {
+	return &Scenario{
+		Name: "S8-streams-empty-values", IDs: []string{"nX", "nO"}, MaxPacket: maxPacket,
+		Init: []Event{ev("join", 1, 0)},
+		Ops: map[int][]Event{0: {
+			{Kind: "up", K: "a", V: "1"}, {Kind: "up", K: "a", V: ""}, {Kind: "del", K: "a"},
+			{Kind: "up", K: "b", V: "1"}, {Kind: "leave"},
+		}},
+		MaxOps:  map[int]int{0: ops},
+		Digests: [][2]int{{1, 0}, {0, 1}}, MaxDigests: digests,
+		Perms: "id", MaxDups: dups, MaxInflight: 3, MaxHolds: holds,
+		Joins: [][2]int{{0, 1}}, MaxJoins: 1,
+		Oracles: OracleSet{C02: true, C14: true},
+	}
+}
+
 // ByName rebuilds a scenario from its name and parameters (used by replay).
 type Params struct {
 	Name                                           string
@@ -198,6 +217,8 @@ func Build(p Params) *Scenario {
 		sc = S6(p.MaxPacket, p.Ops, p.Digests, p.Dups, p.Holds, p.Flag)
 	case "S7":
 		sc = S7(p.MaxPacket, p.Ops, p.Digests, p.Holds)
+	case "S8":
+		sc = S8(p.MaxPacket, p.Ops, p.Digests, p.Dups, p.Holds)
 	default:
 		panic("unknown scenario " + p.Name)
 	}
